@@ -165,15 +165,34 @@ def run(res, drv, tier, seed):
             dtype = r.choice(['uint8', 'uint8', 'int8'])     # what category codes / compact loaders produce
         df = df.astype(dtype)
         res.count('public records stored as ' + dtype)
-        pub = Dataset(df.copy(), d)
+        # a public dataset may itself carry weights (survey weights, 0/1 inclusion flags, the output of an earlier reweighting): the
+        # reweighting starts from ones whatever they are, and is compared with the UNIFORMLY weighted public records
+        pw = None
+        if ci % 4 == 1 and len(rows) >= 4:
+            pw = np.array([float(r.choice([0, 1, 1, 2])) for _ in rows])
+            # switch off every public record of one measured cell
+            if meas:
+                p0 = list(meas[0][3])
+                key0 = tuple(rows[0][attrs.index(a)] for a in p0)
+                for j_, row_ in enumerate(rows):
+                    if tuple(row_[attrs.index(a)] for a in p0) == key0:
+                        pw[j_] = 0.0
+            if pw.sum() == 0:
+                pw[-1] = 1.0
+            res.count('public dataset carries its own (0/1/2) weights')
+        pub = Dataset(df.copy(), d, pw)
         total = None if undet else (float(N) if flat else r.choice([None, float(N), 17.5]))
         canon = {'dom': dom, 'rows': rows, 'total': total, 'metric': metric, 'dtype': dtype, 'meas': [{'Q': Q.tolist(), 'y': y.tolist(), 'noise': s, 'proj': list(p)} for Q, y, s, p in meas]}
         res.case(canon, len(meas) >= 2 or len(set(map(tuple, rows))) < len(rows), sample={'dom': dom, 'records': len(rows), 'projections': [list(m[3]) for m in meas], 'total': total} if ci < 3 else None)
         res.count('total given' if total is not None else 'total estimated')
         eng = PublicInference(pub, metric=metric)
+        # a single-attribute clique may be written as the bare attribute name (a legal spelling throughout the library)
+        meas_impl = [(Q, y, s_, (p_[0] if (len(p_) == 1 and (ci + k_) % 2 == 0) else p_)) for k_, (Q, y, s_, p_) in enumerate(meas)]
+        if any(isinstance(m_[3], str) for m_ in meas_impl):
+            res.count('a measured single attribute written as a bare name')
         try:
             with np.errstate(all='ignore'):
-                est = eng.estimate(list(meas), total=total)
+                est = eng.estimate(list(meas_impl), total=total)
         except Exception as e:
             res.violation('failing-input', f'PublicInference.estimate raises {type(e).__name__}: {str(e)[:120]}', {'request': canon}, key='public:raises')
             continue
@@ -210,7 +229,7 @@ def run(res, drv, tier, seed):
             res.violation('failing-input', 'PublicInference.estimate: ' + bad, dict(rp, expected=bad), key='public:' + bad.split()[0])
             continue
         with np.errstate(all='ignore'):
-            impl_loss = eng._marginal_loss(__import__('mbi').CliqueVector.from_data(est, [m[3] for m in meas]))[0]
+            impl_loss = eng._marginal_loss(__import__('mbi').CliqueVector.from_data(est, [m[3] for m in meas_impl]))[0]
         if not close(impl_loss, lw, 1e-8, 1e-8):
             res.violation('correspondence', f'objective: PublicInference loss {impl_loss}, quadratic form in the weights {lw}', dict(rp, stream='C19.objective'))
             continue
